@@ -342,7 +342,7 @@ static void finish_slot(int s, int status, int timedout)
 	outcome_add(r->outcome_hash ^ ((uint64_t)cls << 60));
 	if (getenv("VX_DUMP_EXEC")) {   // debugging aid: one line per execution with its event log
 		char pre[1024]; prefix_to_str(w, pre, sizeof pre);
-		fprintf(stderr, "EXEC cost=%d prefix=[%s] :", w->cost, pre);
+		fprintf(stderr, "EXEC cost=%d npoints=%u prefix=[%s] :", w->cost, r->npoints, pre);
 		for (uint32_t i = 0; i < r->log.n; i++) fprintf(stderr, " T%u/%u:%d:%lld", r->log.ev[i].thread, r->log.ev[i].kind, r->log.ev[i].id, (long long)r->log.ev[i].arg);
 		fprintf(stderr, "\n");
 	}
